@@ -484,8 +484,25 @@ func ruleArrayBounds(r *Run, p *Program, rule string) {
 			if !okv {
 				okv = boundedCounter(f, s.in, idx, s.n)
 			}
+			boundsUnknown = false
 			if !okv {
 				okv = afterCountingLoop(p, f, s.in, idx, s.n)
+			}
+			if !okv {
+				if par, isPar := idx.(*ssa.Parameter); isPar {
+					o, known := argsBelow(p, f, par, s.n-plus, 0)
+					if !known {
+						boundsUnknown = true
+					}
+					okv = o
+				} else if _, isFree := idx.(*ssa.FreeVar); isFree {
+					boundsUnknown = true
+				}
+			}
+			if !okv && boundsUnknown {
+				// the index arrives through a callback or a function value whose call sites this rule does not enumerate
+				r.advisory(rule, funcKey(f)+":index<"+fmt.Sprint(s.n), p.Pos(s.in.Pos()), "index bound not decided: the index is a parameter of a closure or of a function used as a value")
+				continue
 			}
 			r.check(okv, rule, funcKey(f)+":index<"+fmt.Sprint(s.n), p.Pos(s.in.Pos()),
 				"the array is indexed only where the index is known to be below its length",
@@ -642,15 +659,26 @@ func afterCountingLoop(p *Program, f *ssa.Function, at ssa.Instruction, idx ssa.
 	if !isPar {
 		return false
 	}
-	return argsBelow(p, f, par, n, 0)
+	ok, known := argsBelow(p, f, par, n, 0)
+	if !known {
+		boundsUnknown = true
+	}
+	return ok
 }
 
-// argsBelow: every static call site of f passes, for parameter par, a value known to be below n there.
-func argsBelow(p *Program, f *ssa.Function, par *ssa.Parameter, n int64, d int) bool {
+// boundsUnknown: set when the last bound query depended on call sites that cannot be enumerated.
+var boundsUnknown bool
+
+// argsBelow: every static call site of f passes, for parameter par, a value known to be below n there. known=false when
+// the call sites cannot be enumerated (f is a closure or is used as a value) or an argument is itself such a parameter.
+func argsBelow(p *Program, f *ssa.Function, par *ssa.Parameter, n int64, d int) (ok, known bool) {
 	pi := paramIndex(par)
+	if f.Parent() != nil || pi < 0 || d > 2 {
+		return false, false
+	}
 	callers := staticCallersOf(p, f)
-	if pi < 0 || len(callers) == 0 || d > 2 {
-		return false
+	if len(callers) == 0 {
+		return false, false
 	}
 	for _, caller := range callers {
 		var sites []*ssa.Call
@@ -660,23 +688,143 @@ func argsBelow(p *Program, f *ssa.Function, par *ssa.Parameter, n int64, d int) 
 			}
 		})
 		if len(sites) == 0 {
-			return false
+			return false, false
 		}
 		for _, s := range sites {
 			if pi >= len(s.Call.Args) {
-				return false
+				return false, false
 			}
 			a := strip(s.Call.Args[pi])
 			if k, isc := constInt(a); isc {
 				if k < 0 || k >= n {
-					return false
+					return false, true
 				}
 				continue
 			}
 			isA := func(v ssa.Value) bool { return strip(v) == a }
-			if !controlledBy(caller, s, func(c *Cond) bool {
+			if controlledBy(caller, s, func(c *Cond) bool {
 				return impliesCmp(c, func(v ssa.Value) bool { kk, ok := constInt(strip(v)); return ok && kk <= n }, isA, true)
 			}) {
+				continue
+			}
+			if ap, isPar := a.(*ssa.Parameter); isPar {
+				if o, k := argsBelow(p, caller, ap, n, d+1); !k {
+					return false, false
+				} else if !o {
+					return false, true
+				}
+				continue
+			}
+			if c, _ := callResult(a); c != nil {
+				return false, false // computed by a helper: not enumerated here
+			}
+			return false, true
+		}
+	}
+	return true, true
+}
+
+// ruleRecordWriters: the bytes appended to a segment as a record come from the reviewed encoder (encodeRecord, whose
+// layout the record rule pins) or are the verbatim bytes of a record the segment iterator decoded (compaction copies
+// records). A second encoder - a buffer-reusing batch encoder, say - writes the on-disk format without being covered by
+// the layout rule; it fails closed here until it is reviewed.
+func ruleRecordWriters(r *Run, p *Program, rule string) {
+	wr := p.Fn("(*pogreb.datalog).writeRecord")
+	enc := p.Fn("pogreb.encodeRecord")
+	if !r.anchor(rule, "(*pogreb.datalog).writeRecord and pogreb.encodeRecord", wr != nil && enc != nil) {
+		return
+	}
+	n := 0
+	for _, f := range p.ModuleFuncs("") {
+		if f.Pkg != p.MainS {
+			continue
+		}
+		var calls []*ssa.Call
+		instrsOf(f, func(in ssa.Instruction) {
+			if c, ok := in.(*ssa.Call); ok && c.Call.StaticCallee() == wr {
+				calls = append(calls, c)
+			}
+		})
+		for _, c := range calls {
+			n++
+			r.fn(funcKey(f))
+			data := byteSliceArg(&c.Call)
+			okv := data != nil && recordBytesOrigin(p, f, data, enc, wr, 0)
+			r.check(okv, rule, funcKey(f)+"->writeRecord:data", p.Pos(c.Pos()),
+				"the record bytes come from encodeRecord or from a decoded record",
+				"bytes appended to a segment as a record are produced by something other than encodeRecord (the encoder whose layout and checksum coverage are pinned) or a decoded record's verbatim data: an unreviewed second writer of the on-disk format (its framing, its CRC coverage) is not covered by the format rules")
+		}
+	}
+	r.universe(rule, n, 3)
+}
+
+func recordBytesOrigin(p *Program, f *ssa.Function, v ssa.Value, enc, wr *ssa.Function, d int) bool {
+	if d > 5 {
+		return false
+	}
+	srcs := sources(v)
+	if len(srcs) == 0 {
+		return false
+	}
+	for _, s := range srcs {
+		s = strip(s)
+		if fn := fieldName(s); fn == "pogreb.record.data" {
+			continue
+		}
+		if ld, ok := s.(*ssa.UnOp); ok && ld.Op == token.MUL {
+			if fieldName(ld.X) == "pogreb.record.data" {
+				continue
+			}
+		}
+		if par, ok := s.(*ssa.Parameter); ok {
+			// a pass-through helper: every static call site must qualify
+			callers := staticCallersOf(p, par.Parent())
+			pi := paramIndex(par)
+			if len(callers) == 0 || pi < 0 || par.Parent() == wr {
+				return false
+			}
+			for _, caller := range callers {
+				found := false
+				bad := false
+				instrsOf(caller, func(in ssa.Instruction) {
+					if c, ok := in.(*ssa.Call); ok && c.Call.StaticCallee() == par.Parent() && pi < len(c.Call.Args) {
+						found = true
+						if !recordBytesOrigin(p, caller, c.Call.Args[pi], enc, wr, d+1) {
+							bad = true
+						}
+					}
+				})
+				if !found || bad {
+					return false
+				}
+			}
+			continue
+		}
+		c, _ := callResult(s)
+		if c == nil {
+			return false
+		}
+		g := c.Call.StaticCallee()
+		if g == nil {
+			return false
+		}
+		if g == enc {
+			continue
+		}
+		if !inModule(g) || g.Signature.Results().Len() == 0 {
+			return false
+		}
+		// a wrapper: every return of it qualifies
+		for _, ret := range returnsOf(g) {
+			ok := false
+			for _, res := range ret.Results {
+				if sl, isSl := res.Type().Underlying().(*types.Slice); isSl {
+					if b, isB := sl.Elem().Underlying().(*types.Basic); isB && b.Kind() == types.Uint8 {
+						ok = recordBytesOrigin(p, g, res, enc, wr, d+1)
+					}
+				}
+			}
+			if !ok {
 				return false
 			}
 		}
